@@ -29,6 +29,15 @@ both agree on them (theorem C16_former_witness is the minimal one, run first).
       the respondent-level value of THAT base cell, whose baseline is computed from all rows; NaN for an
       inserted subtotal;  (b) relationally, the cell of (A).column_index that (B)'s own row_order() /
       column_order() point at.  Distribution keys `display:*`.
+
+  (e) SMOOTHING READ ORDER (added after seeded change C16-9: the smoothed column index assigned its
+      smoothed base block INTO the cached blocks of the unsmoothed measure, so `column_index` read after
+      `smoothed_column_index` was the moving average).  The property defines column_index from the counts
+      alone; which other outputs of the same slice were read before is not an input.  A stream of
+      CAT/MR/CAT_DATE x CAT_DATE slices under a VALID smoothing transform (one-sided moving average,
+      window 2): `column_index` read right after `smoothed_column_index`, and after EVERY other public
+      read in two shuffled orders, must be value-exactly the one of a fresh partition.  Distribution key
+      `smoothing-read-order`.
 """
 import json
 import random
@@ -447,6 +456,35 @@ def describe(rep, case):
         rep.dist("3d_missing_table_element_before_valid")
 
 
+def smoothing_read_order_fails(scase):
+    from harness.props import common_cases as cc
+    tr = dict(scase.get("transforms") or {})
+    cd = dict(tr.get("columns_dimension") or {})
+    cd["smoother"] = {"function": "one_sided_moving_avg", "window": 2}
+    tr["columns_dimension"] = cd
+    case = dict(scase, transforms=tr)
+    fresh = {"column_index": impl.get(impl.partition(case["response"], tr), "column_index")}
+    if fresh["column_index"][0] == "ok":
+        import copy
+        fresh["column_index"] = ("ok", copy.deepcopy(fresh["column_index"][1]))
+    fails = []
+    # targeted: the smoothed index first, then the plain one, on one partition
+    p = impl.partition(case["response"], tr)
+    impl.get(p, "smoothed_column_index")
+    a, b = cc._canon_read(fresh["column_index"]), cc._canon_read(impl.get(p, "column_index"))
+    if a != b:
+        fails.append({"what": "column_index depends on what was read before", "fresh": a, "after": b,
+                      "schedule": ["smoothed_column_index", "column_index"]})
+    for extra in (0, 500000):
+        population, late = cc.late_reads(dict(case, k=int(case.get("k", 0)) + extra), ["column_index"], fresh,
+                                         transforms=tr)
+        for nm, x, y, culprits in late[:1]:
+            fails.append({"what": "column_index depends on what was read before", "fresh": x,
+                          "after_other_reads": y, "population": population,
+                          "single_earlier_reads_that_change_it": culprits})
+    return fails[:2]
+
+
 def weights_outside_the_table(case, rng):
     sv = case["survey"]
     last = [v for v in sv["vars"] if v["alias"] == case["aliases"][-1]][0]
@@ -510,6 +548,21 @@ def run(tier, seed):
         dios.append(io)
         dterms.append(terms)
         flat.extend(t for (_k, t) in terms)
+    # (e) SMOOTHING stream (after seeded change C16-9: the smoothed column index assigned its smoothed base
+    # block INTO the cached blocks of the unsmoothed measure): categorical-date columns under a valid
+    # smoothing transform; column_index read after `smoothed_column_index` (targeted) and after every other
+    # public read in two shuffled orders is the one of a fresh partition
+    from harness.props import common_cases as cc
+    rng_sm = random.Random(seed + 61)
+    for k in range(24 if tier == "quick" else 300):
+        scase = cc.replayable(cc.gen_slice_case(rng_sm, 200000 + k, p_strand=0.0, p_insert=0.3, valid_counts_p=0.0,
+                                                kinds2d=[("cat", "cat_date"), ("mr", "cat_date"),
+                                                         ("cat_date", "cat_date")], n_resp=(6, 30)))
+        for f in smoothing_read_order_fails(scase):
+            rep.violation("impl-vs-property", dict(scase, smoothing_stream=True), f,
+                          {"what": f.get("what"), "leg": "smoothing-read-order"})
+        rep.count_case(dict(scase, smoothing_stream=True), True)
+        rep.dist("smoothing-read-order")
     results, coq_s = core.run_coq_cases(PID, cu.IMPORTS, flat, shard=60) if flat else ([], 0.0)
     pos = 0
     for case, io, terms in zip(cases, ios, allterms):
@@ -587,6 +640,13 @@ def replay(path):
     if d["violation"].get("kind") in core.OBLIGATION_KINDS:  # a broken obligation, no input to re-run
         return core.replay_obligations(PID, d)
     case = d["violation"]["case"]
+    if case.get("smoothing_stream"):
+        fails = smoothing_read_order_fails(case)
+        for f in fails:
+            print("REPLAY still fails:", json.dumps(core.jsonable(f))[:600])
+        if not fails:
+            print("REPLAY: no longer fails")
+        return 1 if fails else 0
     cu.finish_case(case)
     if case.get("display_leg"):
         io, terms = build_display(case)
